@@ -1233,6 +1233,16 @@ XalanTransformer::reset()
 
 
 
+#if defined(APACHE_XALAN_C_VERIF)
+void
+XalanTransformer::verifResidue(XalanVector<unsigned long>&  theResidue) const
+{
+    m_stylesheetExecutionContext->verifResidue(theResidue);
+}
+#endif
+
+
+
 XalanTransformer::EnsureReset::~EnsureReset()
 {
     m_transformer.m_stylesheetExecutionContext->reset();
